@@ -16,6 +16,8 @@ import (
 	"github.com/flamego/flamego/internal/vx"
 )
 
+type vRawBytes []byte
+
 func init() {
 	vx.Register("VH_C14_return", VH_C14_return)
 }
@@ -83,6 +85,24 @@ func VH_C14_return() {
 		h = func() []byte { return b }
 		if len(b) > 0 {
 			exp = vExpect{status: 200, body: text}
+		}
+	case "named-bytes":
+		// a byte slice type with a name of its own (json.RawMessage is one): still a byte slice
+		b := vRawBytes(bytesOf())
+		switch vx.Choice(3) {
+		case 0:
+			h = func() vRawBytes { return b }
+			if len(b) > 0 {
+				exp = vExpect{status: 200, body: text}
+			}
+		case 1:
+			h = func() (int, vRawBytes) { return code, b }
+			exp = vExpect{status: code, body: string(b)}
+		case 2:
+			h = func() (vRawBytes, error) { return b, nil }
+			if len(b) > 0 {
+				exp = vExpect{status: 200, body: text}
+			}
 		}
 	case "error":
 		if !isNil {
